@@ -147,7 +147,12 @@ extern "C" void h_complex_add_mul(void)
   bool mul = nondet_boolean();
   ComplexVisitor v; v.assumptions_ = 0; v.is_complex_ = tribool::indeterminate; verif_may_throw = false;
   bool all_finite = ch0.finite && ch1.finite && (n < 3 || ch2.finite);
-  if (mul) { Mul x; x.dict.n = n - 1; x.dict.e[0].first = &ch0; x.dict.e[0].second = &cf0; x.dict.e[1].first = &ch1; x.dict.e[1].second = &cf1; __CPROVER_assume(n == 3 || true); all_finite = ch0.finite && (n < 3 || ch1.finite); v.bvisit_Mul(x); }
+  if (mul) {
+    /* the numeric coefficient of a Mul may be oo, zoo or nan (oo*x is a Mul with coefficient oo); for a Number the visitor's answer is exact (Number rule) */
+    any_child(c0, -1, 1); c0.finite = nondet_boolean(); if (c0.finite) c0.cplx_answer = tribool::tritrue; else c0.cplx_answer = tribool::trifalse;
+    Mul x; x.coef = &c0; x.dict.n = n - 1; x.dict.e[0].first = &ch0; x.dict.e[0].second = &cf0; x.dict.e[1].first = &ch1; x.dict.e[1].second = &cf1;
+    all_finite = c0.finite && ch0.finite && (n < 3 || ch1.finite); v.bvisit_Mul(x);
+  }
   else { Add x; x.args.n = n; x.args.d[0] = &ch0; x.args.d[1] = &ch1; x.args.d[2] = &ch2; v.bvisit_Add(x); }
   /* a sum / product of finite complex numbers is a finite complex number: a definite 'true' needs every operand finite */
   OBL("C34.ComplexVisitor.AddMul.definite_true_only_if_every_operand_is_finite", !is_true(v.is_complex_) || all_finite);
